@@ -44,6 +44,8 @@ EXTENDS CardanoDb
 CONSTANTS
     UnpackStaged,          \* FALSE: immutable archives unpacked straight into the target (the code);
                            \* TRUE : idealised fix (only the archive's own trio is taken over)
+    ListedMustBeRegular,   \* FALSE: verify_data reads through whatever sits at a listed path (the code);
+                           \* TRUE : proposed fix
     ManifestHashInjective  \* FALSE: AncillaryFilesManifest::compute_hash concatenates keys and
                            \*        values without separators (the code); TRUE: idealised fix
 
@@ -61,6 +63,7 @@ Pre        == [k |-> "pre", i |-> -1]
 Client     == [k |-> "client", i |-> -1]
 Anc        == [k |-> "anc", i |-> -1]
 AncX       == [k |-> "ancx", i |-> -1]
+AncLink    == [k |-> "anclink", i |-> -1]   \* a symbolic link the ancillary archive held at a listed path
 FromImm(i) == [k |-> "imm", i |-> i]
 
 InImmDir(p) == p.cls \in {"imm", "immjunk", "immsub", "immuser"}
@@ -75,7 +78,13 @@ Genuine(N) == TrioP(N + 1) \cup {Ledger(1), Volatile}
 (*  pre      set of paths held before                                      *)
 (*  arch     i \in lo..hi |-> [status ("ok"|"missing"|"corrupt"),          *)
 (*                             extra (set of paths besides trio i)]        *)
-(*  ancArch  [status ("ok"|"missing"), manifest (variant), extra]          *)
+(*  ancArch  [status ("ok"|"missing"), manifest (variant), extra, at]      *)
+(*           at: what the archive holds at the manifest-listed path        *)
+(*           ledger/1: "file" the regular file | "dir" a directory with    *)
+(*           unlisted children | "link_in_same" / "link_in_other" a        *)
+(*           symbolic link to a file of the archive with the vouched /     *)
+(*           another content | "link_out_same" a symbolic link to a file   *)
+(*           outside the unpack directory with the vouched content         *)
 (*  conflict the target holds a directory where the vouched ledger file    *)
 (*           has to go (Occupied \in pre)                                  *)
 (* Manifest variants: what the mirror serves relative to the genuine,      *)
@@ -88,13 +97,23 @@ ManifestVariants == {"ok", "contentChanged", "entryAdded", "entryRemoved", "sigA
                      "sigOtherKey", "manifestMissing", "manifestGarbage", "listedFileMissing", "merged"}
 
 (* AncillaryVerifier::verify on the unpacked archive *)
-VerifyOk(v) == \/ v = "ok"
-               \/ v = "merged" /\ ~ManifestHashInjective
+EntryKinds == {"file", "dir", "link_in_same", "link_in_other", "link_out_same"}
+
+(* AncillaryVerifier::verify on the unpacked archive.  verify_data hashes what it reads     *)
+(* under each listed path: through a symbolic link (tokio::fs::File::open follows links),  *)
+(* and fails on a directory (unless ListedMustBeRegular: proposed fix, anything but a      *)
+(* regular file under a listed path is refused)                                            *)
+ReadsVouched(at) == IF ListedMustBeRegular THEN at = "file"
+                    ELSE at \in {"file", "link_in_same", "link_out_same"}
+VerifyOk(a) == /\ \/ a.manifest = "ok"
+                  \/ a.manifest = "merged" /\ ~ManifestHashInjective
+               /\ ReadsVouched(a.at)
 (* the files a successfully verified manifest lists (= what move_to_final_location moves) *)
 Listed(v, N) == IF v = "merged" THEN TrioP(N + 1) \cup {Merged} ELSE Genuine(N)
-(* source of the bytes the archive carries at a listed path (the merged entry carries the  *)
-(* genuine bytes of the volatile file, under another path)                                 *)
-AncSrc(p) == Anc
+(* what the rename of a listed path brings into the target: the genuine bytes (the merged  *)
+(* entry carries the genuine bytes of the volatile file, under another path) or, when the  *)
+(* archive holds a symbolic link there, the link itself                                    *)
+AncSrc(a, p) == IF p = Ledger(1) /\ a.at # "file" THEN AncLink ELSE Anc
 
 VARIABLES kase, target, pc, task, result, expected
 rvars == <<kase, target, pc, task, result, expected>>
@@ -149,7 +168,7 @@ ImmutablesDone ==
 Ancillary ==
     /\ pc = "ancillary"
     /\ LET a == kase.ancArch IN
-       IF a.status # "ok" \/ ~VerifyOk(a.manifest)
+       IF a.status # "ok" \/ ~VerifyOk(a)
        THEN /\ result' = "err" /\ UNCHANGED target
        ELSE IF kase.conflict
             THEN \* the two passes of move_to_final_location: files are renamed in manifest order,
@@ -157,7 +176,7 @@ Ancillary ==
                  /\ target' = Overwrite(target, TrioP(kase.N + 1), Anc)
                  /\ result' = "err"
             ELSE /\ target' = [p \in DOMAIN target \cup Listed(a.manifest, kase.N) |->
-                                  IF p \in Listed(a.manifest, kase.N) THEN AncSrc(p) ELSE target[p]]
+                                  IF p \in Listed(a.manifest, kase.N) THEN AncSrc(a, p) ELSE target[p]]
                  /\ UNCHANGED result
     /\ pc' = "cleanup"
     /\ UNCHANGED <<kase, task, expected>>
@@ -181,7 +200,10 @@ RNext == Start \/ UnpackImmutable \/ ImmutablesDone \/ Ancillary \/ Cleanup
 
 (* the served ancillary archive is the genuine one: the manifest the key owner signed,     *)
 (* with its signature, and every listed file present with the vouched content              *)
-AncGenuine(k) == k.ancArch.status = "ok" /\ k.ancArch.manifest = "ok"
+(* (what is read under a listed path counts; a symbolic link found there is judged as an    *)
+(* entry of the target: it is no file with a matching hash)                                *)
+AncGenuine(k) == /\ k.ancArch.status = "ok" /\ k.ancArch.manifest = "ok"
+                 /\ k.ancArch.at \in {"file", "link_in_same", "link_out_same"}
 
 Allowed(k, p, src) ==
     \/ src = Pre /\ p \in k.pre                                    \* held before
